@@ -11,7 +11,7 @@ A step is a JSON dict
                         "rule" (SynRule object shared per rsmi, forward direction only) | "rsmi" (the string; full ITS only)
   sub_form              "smiles" | "graph" | "syngraph" | "sharedgraph" (one nx graph object per smiles)
   ctor                  "init" | "from_smiles"
-  opts                  result-neutral constructor options (automorphism, embed_pre_filter, embed_threshold, canonicaliser="shared")
+  opts                  result-neutral constructor options (automorphism, embed_threshold = the default, canonicaliser="shared")
   mutate                after reading: empty the returned ITS graphs and the returned lists in place
   relabel               {old: new}: BEFORE building, renumber the shared template graph object of `relabel_of` in place
   key                   steps with equal key must agree
@@ -139,7 +139,9 @@ def fresh(spec, timeout=300):
 
 _FORMS = [dict(), dict(tpl_form="shared"), dict(sub_form="graph"), dict(tpl_form="rule"), dict(sub_form="syngraph", enum=True),
           dict(tpl_form="shared", sub_form="sharedgraph"), dict(ctor="from_smiles"), dict(tpl_form="rsmi"), dict(enum=True, tpl_form="shared")]
-_OPTS = [None, dict(automorphism=True), None, dict(embed_pre_filter=True), dict(canonicaliser="shared"), None, dict(embed_threshold=5000),
+# embed_pre_filter=True is NOT result-neutral (documented guard: it empties the result when the product of the per-node
+# candidate counts exceeds threshold * 10000, e.g. a 6-atom pattern on a 67-atom NAD substrate) and is left to C06
+_OPTS = [None, dict(automorphism=True), None, dict(embed_threshold=5000), dict(canonicaliser="shared"), None, dict(automorphism=False),
          dict(automorphism=True, canonicaliser="shared")]
 
 
@@ -163,6 +165,8 @@ def steps_of(case, numberings=(), rng=None):
                 f["tpl_form"] = "shared"
             if f.get("tpl_form") == "rsmi" and core:
                 f["tpl_form"] = "graph"
+            if stg != "all":        # the non-default strategies through every constructor / spelling of the option
+                f = [dict(ctor="from_smiles"), dict(enum=True, tpl_form="shared"), dict(ctor="from_smiles", enum=True), dict(sub_form="graph")][k % 4]
             s.update(f)
             o = _OPTS[(k * 5 + 3) % len(_OPTS)]
             if o:
